@@ -515,6 +515,22 @@ pub struct Plan {
     pub asset_need: BTreeMap<(u16, Vec<u8>), u64>,
 }
 
+/// serialized size of an output as the library writes it (a measuring device of the generator only)
+fn probe_output_size(w: &World, o: &OutSpec) -> u64 {
+    let mut out = csl::TransactionOutput::new(&w.address(&o.addr), &w.value(o.coin, &o.assets));
+    match &o.datum {
+        Some(DatumAt::Hash(d)) if (*d as usize) < w.datums.len() => out.set_data_hash(&csl::hash_plutus_data(&w.datum(*d))),
+        Some(DatumAt::Inline(d)) if (*d as usize) < w.datums.len() => out.set_plutus_data(&w.datum(*d)),
+        _ => {}
+    }
+    if let Some(s) = o.script_ref {
+        if (s as usize) < w.scripts.len() {
+            out.set_script_ref(&w.script_val(s).script_ref());
+        }
+    }
+    out.to_bytes().len() as u64
+}
+
 /// Swarm variation: one run in four redraws the feature mix itself (each feature switched off, left
 /// alone or made dominant), so that correctness never silently depends on one property's profile.
 fn swarm_variant(seed: u64, p: &Profile) -> Profile {
@@ -1051,6 +1067,20 @@ pub fn generate(seed: u64, tier: Tier, p: &Profile) -> Scenario {
                     3 | 4 if g.k.cpb <= 420 => 65536 + g.r.below(300),
                     _ => (total / 2).max(g.min_ada(extra)),
                 };
+                let mut coin = coin;
+                if pm(&mut g.r, p.fine_cpb) && g.r.chance(1, 2) {
+                    // adaptive: coins_per_byte chosen (only ever lowered) so that this return's minimum ADA sits
+                    // on the 2^16 coin-width edge, and a coin just at / above the edge
+                    let probe = OutSpec { addr: ret_addr.clone(), coin: 65536, assets: assets.clone(), datum: rdatum.clone(), script_ref: rsref, min_coin: false, form: 0 };
+                    let size = probe_output_size(&g.w, &probe);
+                    if size > 0 {
+                        let want = (65535 / (160 + size)).saturating_sub(g.r.below(2));
+                        if want >= 1 && want <= g.k.cpb {
+                            g.k.cpb = want;
+                            coin = 65536 + g.r.below(2 * want + 2);
+                        }
+                    }
+                }
                 coll_ops.push(Op::CollReturnAndTotal(OutSpec { addr: ret_addr, coin, assets, datum: rdatum, script_ref: rsref, min_coin: false, form: 0 }));
             }
             if g.r.chance(1, 3) {
